@@ -134,11 +134,20 @@ def macro_name(span):
     return None
 
 
+_alloc = re.compile(r"\balloc::(string|vec|boxed|sync|borrow|fmt)::")
+
+
+def norm_key(k):
+    """site keys are configuration independent: no_std builds name the same
+    types through `alloc::`"""
+    return _alloc.sub(r"std::\1::", k)
+
+
 class Site:
     __slots__ = ("fn", "bb", "kind", "detail", "ordinal", "term", "file", "line", "src", "extra")
 
     def key(self):
-        return "%s | %s | %s#%d" % (self.fn.key, self.kind, self.detail, self.ordinal)
+        return norm_key("%s | %s | %s#%d" % (self.fn.key, self.kind, self.detail, self.ordinal))
 
     def loc(self):
         return "%s:%s" % (self.file, self.line)
